@@ -25,7 +25,7 @@ func init() {
 		},
 		Rule: "inputs: every string of <=5 (quick) / <=6 (thorough) symbols over a 17-symbol alphabet of separators, quotes, escapes, comment and number/operator pieces; " +
 			"corpus and multi-statement programs with ';' inserted at every byte offset; unterminated tokens and comments before ';'. " +
-			"oracle: join/count/no-semicolon/sub-list invariants between SplitStatements and Scan, Parse(whole) vs Parse(piece) statement by statement (spans shifted), " +
+			"every code point and invalid byte in front of a ';' inside a comment, string and quoted name. oracle: the cuts fall exactly at the semicolon tokens of the reference tokenizer (which never looks at the implementation); join/count/no-semicolon/sub-list invariants between SplitStatements and Scan, Parse(whole) vs Parse(piece) statement by statement (spans shifted), " +
 			"Compile(whole) vs Compile(prefix up to the query piece). non-trivial = distinct input with at least one semicolon token and two other tokens",
 		FloorQuick: 100_000, FloorThorough: 1_000_000,
 		Assumptions: []string{"error token messages and error texts of Parse are not compared between whole and piece, only success/failure and trees"},
@@ -97,6 +97,20 @@ func generate(w *mon.W) {
 				s := strings.ReplaceAll(tmpl, "%s", ch)
 				w.Do(s, func(r *mon.R) { Check(s, r) })
 			}
+		}
+	}
+	// every ordered pair of lexemes (unterminated strings and names with escapes,
+	// numbers that stop early, comments among them) as two statements: what the
+	// first leaves behind must not reach the second
+	for _, a := range gen.Lexicon {
+		for _, b := range gen.Lexicon {
+			for _, sep := range []string{";", "\n;", " ; T | where x == "} {
+				s := a + sep + b
+				w.Do(s, func(r *mon.R) { Check(s, r) })
+			}
+		}
+		if w.Stopped() {
+			return
 		}
 	}
 	// long runs of faulty and of well-formed statements, then one more statement
